@@ -1573,4 +1573,165 @@ example : let g : VarGlyph := ⟨"f_i", [[⟨some "caret_1", 100, 0⟩, ⟨some 
       (100 : Int) ∈ caretCoordsVar (g.sources.getD 0 []) := by
   decide +kernel
 
+/-! ### the left-to-right set: GSUB closure with the script-neutral glyphs carried along -/
+
+theorem subsetOf_iff (a b : List String) : subsetOf a b = true ↔ ∀ g ∈ a, g ∈ b := by
+  simp [subsetOf, List.all_eq_true]
+
+theorem closeStep_extensive (rules : List Rule) (s : List String) {g : String} (h : g ∈ s) : g ∈ closeStep rules s := by
+  unfold closeStep; exact List.mem_append_left _ h
+
+/-- a glyph added by a round is produced by a rule all of whose needed glyphs were present -/
+theorem closeStep_mem (rules : List Rule) (s : List String) {g : String} (h : g ∈ closeStep rules s) :
+    g ∈ s ∨ ∃ r ∈ rules, g ∈ r.out ∧ ∀ x ∈ r.need, x ∈ s := by
+  unfold closeStep at h
+  rcases List.mem_append.mp h with h | h
+  · exact Or.inl h
+  · right
+    have h := (List.mem_eraseDups.mp h)
+    have h := (List.mem_filter.mp h).1
+    obtain ⟨r, hr, hg⟩ := List.mem_flatMap.mp h
+    have hr' := List.mem_filter.mp hr
+    exact ⟨r, hr'.1, hg, (subsetOf_iff _ _).mp hr'.2⟩
+
+theorem closeGlyphs_extensive (rules : List Rule) (k : Nat) : ∀ (s : List String) {g : String}, g ∈ s → g ∈ closeGlyphs rules k s := by
+  induction k with
+  | zero => intro s g h; exact h
+  | succ k ih => intro s g h; exact ih _ (closeStep_extensive rules s h)
+
+/-- **nothing unreachable**: every glyph of the closed set is a starting glyph or the output of a rule all of whose
+needed glyphs are in the closed set -/
+theorem closeGlyphs_grounded (rules : List Rule) (k : Nat) : ∀ (s : List String) {g : String}, g ∈ closeGlyphs rules k s →
+    g ∈ s ∨ ∃ r ∈ rules, g ∈ r.out ∧ ∀ x ∈ r.need, x ∈ closeGlyphs rules k s := by
+  induction k with
+  | zero => intro s g h; exact Or.inl h
+  | succ k ih =>
+    intro s g h
+    rcases ih (closeStep rules s) h with h1 | ⟨r, hr, hg, hn⟩
+    · rcases closeStep_mem rules s h1 with h2 | ⟨r, hr, hg, hn⟩
+      · exact Or.inl h2
+      · exact Or.inr ⟨r, hr, hg, fun x hx => closeGlyphs_extensive rules (k + 1) s (hn x hx)⟩
+    · exact Or.inr ⟨r, hr, hg, hn⟩
+
+theorem closedUnder_iff (rules : List Rule) (s : List String) :
+    closedUnder rules s = true ↔ ∀ r ∈ rules, (∀ x ∈ r.need, x ∈ s) → ∀ g ∈ r.out, g ∈ s := by
+  simp only [closedUnder, List.all_eq_true, Bool.or_eq_true, Bool.not_eq_true', subsetOf_iff]
+  constructor
+  · intro h r hr hn
+    rcases h r hr with h1 | h1
+    · have := (subsetOf_iff r.need s).mpr hn; rw [this] at h1; cases h1
+    · exact h1
+  · intro h r hr
+    cases hs : subsetOf r.need s with
+    | false => exact Or.inl rfl
+    | true => exact Or.inr (h r hr ((subsetOf_iff _ _).mp hs))
+
+/-- membership in the direction's set or the neutral set = membership in the joint closure -/
+theorem classifyDir_mem (rules : List Rule) (dir0 neutral0 : List String) (g : String) :
+    (g ∈ (classifyDir rules dir0 neutral0).1 ∨ g ∈ (classifyDir rules dir0 neutral0).2) ↔
+      g ∈ closeGlyphs rules (closeFuel rules) (dir0 ++ (classifyDir rules dir0 neutral0).2) := by
+  simp only [classifyDir]
+  constructor
+  · rintro (h | h)
+    · rcases List.mem_append.mp h with h | h
+      · exact closeGlyphs_extensive _ _ _ (List.mem_append_left _ h)
+      · exact (List.mem_filter.mp h).1
+    · exact closeGlyphs_extensive _ _ _ (List.mem_append_right _ h)
+  · intro h
+    by_cases hn : g ∈ closeGlyphs rules (closeFuel rules) neutral0
+    · exact Or.inr hn
+    · left
+      by_cases hd : g ∈ dir0
+      · exact List.mem_append_left _ hd
+      · exact List.mem_append_right _ (List.mem_filter.mpr ⟨h, by simp [hn, hd]⟩)
+
+/-- every encoded glyph of the direction is in its set; every encoded neutral glyph in the neutral set -/
+theorem C18_dir_seeded (rules : List Rule) (dir0 neutral0 : List String) :
+    dirSeeded dir0 (classifyDir rules dir0 neutral0).1 = true ∧ dirSeeded neutral0 (classifyDir rules dir0 neutral0).2 = true := by
+  simp only [dirSeeded, List.all_eq_true, List.contains_iff_mem, classifyDir]
+  exact ⟨fun g hg => List.mem_append_left _ hg, fun g hg => closeGlyphs_extensive _ _ _ hg⟩
+
+/-- a glyph that is in the direction's set without being encoded for it is not a neutral glyph -/
+theorem C18_dir_neutral_free (rules : List Rule) (dir0 neutral0 : List String) {g : String}
+    (h : g ∈ (classifyDir rules dir0 neutral0).1) : g ∈ dir0 ∨ g ∉ (classifyDir rules dir0 neutral0).2 := by
+  simp only [classifyDir] at h ⊢
+  rcases List.mem_append.mp h with h | h
+  · exact Or.inl h
+  · have := (List.mem_filter.mp h).2
+    simp only [Bool.and_eq_true, Bool.not_eq_true', List.contains_eq_mem, decide_eq_false_iff_not] at this
+    exact Or.inr this.1
+
+theorem dirClosed_iff (rules : List Rule) (s n : List String) :
+    dirClosed rules s n = true ↔ ∀ r ∈ rules, (∀ x ∈ r.need, x ∈ s ∨ x ∈ n) → ∀ g ∈ r.out, g ∈ s ∨ g ∈ n := by
+  simp only [dirClosed, List.all_eq_true, Bool.or_eq_true, Bool.not_eq_true', List.contains_iff_mem]
+  constructor
+  · intro h r hr hn
+    rcases h r hr with h1 | h1
+    · have : (r.need.all fun g => s.contains g || n.contains g) = true := by
+        simp only [List.all_eq_true, Bool.or_eq_true, List.contains_iff_mem]; exact hn
+      rw [this] at h1; cases h1
+    · exact h1
+  · intro h r hr
+    cases hs : (r.need.all fun g => s.contains g || n.contains g) with
+    | false => exact Or.inl rfl
+    | true =>
+      right
+      simp only [List.all_eq_true, Bool.or_eq_true, List.contains_iff_mem] at hs
+      exact h r hr hs
+
+theorem dirGrounded_iff (rules : List Rule) (dir0 s n : List String) :
+    dirGrounded rules dir0 s n = true ↔ ∀ g ∈ s, g ∈ dir0 ∨ (g ∉ n ∧ ∃ r ∈ rules, g ∈ r.out ∧ ∀ x ∈ r.need, x ∈ s ∨ x ∈ n) := by
+  simp only [dirGrounded, List.all_eq_true, Bool.or_eq_true, Bool.and_eq_true, Bool.not_eq_true',
+    List.any_eq_true, List.contains_eq_mem, decide_eq_false_iff_not, decide_eq_true_eq]
+
+/-- **the direction set of `classifyGlyphs`** (model): once the rounds have reached the fixed point (which the driver
+checks on every input), the set computed for a direction together with the neutral set satisfies the declarative
+statement — seeded by the encoded glyphs, closed under every rule whose needed glyphs are of the direction OR neutral,
+and containing nothing else -/
+theorem C18_dir_set (rules : List Rule) (dir0 neutral0 : List String)
+    (hN : closedUnder rules (classifyDir rules dir0 neutral0).2 = true)
+    (hS : closedUnder rules (closeGlyphs rules (closeFuel rules) (dir0 ++ (classifyDir rules dir0 neutral0).2)) = true) :
+    holdsDirSet rules dir0 neutral0 (classifyDir rules dir0 neutral0).1 (classifyDir rules dir0 neutral0).2 = true := by
+  have hmem := classifyDir_mem rules dir0 neutral0
+  have hseed := C18_dir_seeded rules dir0 neutral0
+  simp only [holdsDirSet, Bool.and_eq_true]
+  refine ⟨⟨⟨⟨⟨hseed.1, ?_⟩, ?_⟩, hseed.2⟩, ?_⟩, ?_⟩
+  · rw [dirClosed_iff]
+    intro r hr hn g hg
+    rw [hmem]
+    exact (closedUnder_iff _ _).mp hS r hr (fun x hx => (hmem x).mp (hn x hx)) g hg
+  · rw [dirGrounded_iff]
+    intro g hg
+    rcases C18_dir_neutral_free rules dir0 neutral0 hg with h | h
+    · exact Or.inl h
+    · by_cases hd : g ∈ dir0
+      · exact Or.inl hd
+      · right
+        refine ⟨h, ?_⟩
+        have hfull := (hmem g).mp (Or.inl hg)
+        rcases closeGlyphs_grounded rules _ _ hfull with h1 | ⟨r, hr, h2, h3⟩
+        · rcases List.mem_append.mp h1 with h1 | h1
+          · exact absurd h1 hd
+          · exact absurd h1 h
+        · exact ⟨r, hr, h2, fun x hx => (hmem x).mpr (h3 x hx)⟩
+  · rw [dirClosed_iff]
+    intro r hr hn g hg
+    left
+    exact (closedUnder_iff _ _).mp hN r hr (fun x hx => (hn x hx).resolve_right (by simp)) g hg
+  · rw [dirGrounded_iff]
+    intro g hg
+    simp only [classifyDir] at hg ⊢
+    rcases closeGlyphs_grounded rules _ _ hg with h1 | ⟨r, hr, h2, h3⟩
+    · exact Or.inl h1
+    · exact Or.inr ⟨by simp, r, hr, h2, fun x hx => Or.inl (h3 x hx)⟩
+
+/-- the seeded shape: `sub a' period by a.fina; sub n period by n_period;` with `period` neutral — both unencoded
+glyphs are left-to-right, and the closure that does not carry the neutral glyphs along misses them -/
+example : (classifyDir [⟨["a", "period"], ["a.fina"]⟩, ⟨["n", "period"], ["n_period"]⟩, ⟨["n"], ["n.alt"]⟩]
+    ["a", "n"] ["period", "space"]) = (["a", "n", "a.fina", "n_period", "n.alt"], ["period", "space"]) ∧
+    closeGlyphs [⟨["a", "period"], ["a.fina"]⟩, ⟨["n", "period"], ["n_period"]⟩, ⟨["n"], ["n.alt"]⟩] 4 ["a", "n"] = ["a", "n", "n.alt"] := by
+  decide +kernel
+
+example : holdsDirSet [⟨["a", "period"], ["a.fina"]⟩] ["a"] ["period"] ["a"] ["period"] = false := by decide +kernel
+
 end Ufo2ft.C18
